@@ -53,6 +53,27 @@ def main():
         out.append("\n%d of %d mutants are caught. `suite still green` counts the mutants the repository's own 405 tests do not notice.\n" % (tc, tot))
     path = os.path.join(VERIF, "DESIGN.md")
     s = open(path).read()
+    # section 6: the table of repairs, from known_findings.json and the repository's log
+    import subprocess
+    F = json.load(open(os.path.join(VERIF, "findings", "known_findings.json")))["findings"]
+    by = {}
+    for f in F:
+        if f["status"] == "fixed":
+            by.setdefault(f["commit"], []).append(f)
+    rows = ["| commit | found by | repair | what failed |", "|---|---|---|---|"]
+    log = subprocess.check_output(["git", "-C", "/repo", "log", "--reverse", "--format=%h %s", "--grep=^fix:"]).decode().strip().splitlines()
+    nfix = 0
+    for l in log:
+        h, subj = l.split(" ", 1)
+        fs = by.get(h, [])
+        if not fs:
+            continue
+        nfix += 1
+        rows.append("| `%s` | %s | %s | %s |" % (h, ",".join(sorted(set(f["property"] for f in fs))), esc(subj.replace("fix: ", "")), esc("; ".join(f["what"] for f in fs))))
+    rows.append("\n%d repairs.\n" % nfix)
+    a = s.index("<!-- FIX-BEGIN -->") + len("<!-- FIX-BEGIN -->")
+    b = s.index("<!-- FIX-END -->")
+    s = s[:a] + "\n" + "\n".join(rows) + "\n" + s[b:]
     a = s.index("<!-- SENS-BEGIN -->") + len("<!-- SENS-BEGIN -->")
     b = s.index("<!-- SENS-END -->")
     s = s[:a] + "\n" + "\n".join(out) + "\n" + s[b:]
